@@ -1,6 +1,6 @@
 (* Proofs about M9 (Model/Config.v) and about _get_config_param as regenerated from the source. *)
 From Coq Require Import ZArith List Bool Lia ZifyBool Arith.
-Require Import JV.Base.PyPrelude JV.Model.Config JV.Gen.T_config_param JV.Gen.T_active_backend.
+Require Import JV.Base.PyPrelude JV.Model.Config JV.Gen.T_config_param JV.Gen.T_active_backend JV.Gen.T_mp_context.
 Import ListNotations.
 Open Scope Z_scope.
 
@@ -660,3 +660,39 @@ Proof.
   apply (iter_compose 2 3 _ (mk c (Run (PWith m s body)) (FTry :: FSeq p :: k) tr)); [reflexivity|].
   cbn [iter]. rewrite (failed_construction_identity _ _ _ _ _ _ H). reflexivity.
 Qed.
+
+(* ----------------------------------------------------------------- start method; life of an object *)
+Lemma src_mp_context_eq : forall env arg dflt, src_mp_context env arg dflt = Some (mp_context_model env arg dflt).
+Proof. intros [e|] [a|] d; reflexivity. Qed.
+
+Lemma mp_context_priority : forall env arg dflt,
+  (forall a, arg = Some a -> src_mp_context env arg dflt = Some a) /\
+  (forall e, arg = None -> env = Some e -> src_mp_context env arg dflt = Some e) /\
+  (arg = None -> env = None -> src_mp_context env arg dflt = Some dflt).
+Proof. intros. rewrite src_mp_context_eq. repeat split; intros; subst; reflexivity. Qed.
+
+Lemma orun_res : forall passes ops o, o_res (orun passes ops o) = o_res o.
+Proof.
+  induction ops as [|op ops IH]; intros o; [reflexivity|]. unfold orun in *. cbn [fold_left]. rewrite IH.
+  destruct op; cbn [ostep]; try reflexivity; destruct (o_managed o); reflexivity.
+Qed.
+
+(* every configuration the backend ever gets uses the record resolved at construction -- provided abort_everything passes
+   the object's backend kwargs on *)
+Lemma object_settings_constant : forall ops r,
+  Forall (fun c => c = CFull r) (o_calls (orun true ops (new_obj r))).
+Proof.
+  intros ops r.
+  assert (forall ops o, o_res o = r -> Forall (fun c => c = CFull r) (o_calls o) ->
+                        Forall (fun c => c = CFull r) (o_calls (orun true ops o))) as G.
+  { induction ops0 as [|op ops0 IH]; intros o Hr Ho; [exact Ho|]. unfold orun in *. cbn [fold_left]. apply IH.
+    - destruct op; cbn [ostep]; try assumption; destruct (o_managed o); assumption.
+    - destruct op; cbn [ostep]; try assumption; try (destruct (o_managed o); try assumption);
+        cbn [o_calls]; rewrite Hr; apply Forall_app; split; auto. }
+  apply G; [reflexivity|constructor].
+Qed.
+
+(* with a backend whose abort_everything does NOT pass them on, a failed call of a managed object reconfigures it bare *)
+Lemma object_settings_lost : forall r,
+  o_calls (orun false [OEnter; OCallOk; OCallFail; OCallOk] (new_obj r)) = [CFull r; CBare (r_njobs r)].
+Proof. reflexivity. Qed.
